@@ -280,11 +280,21 @@ def corrupt : P String := do
     P.eof
     return v.render
 
+/-- `rtcopy S A | sig dump x | dump y` : load into a copy-constructed MDP::Policy (not modelled: the model has no aliasing) -/
+def rtcopy : P String := do
+  let s ← P.nat; let a ← P.nat; P.bar
+  let sig ← P.nat; let x ← pMat s a; P.bar; let y ← pMat s a; P.eof
+  let v : Verdict := { tag := "rtcopy" }
+  let v := v.failIf (sig != 0) s!"MDP::Policy roundtrip_load_failed signal={sig}"
+  let v := v.failIf (x != y) "MDP::Policy load_not_visible_in_copied_policy"
+  return v.render
+
 def handle (toks : List String) : String :=
   match toks with
   | "rt" :: r => (P.run rt r).getD "bad-op"
   | "trunc" :: r => (P.run trunc r).getD "bad-op"
   | "corrupt" :: r => (P.run corrupt r).getD "bad-op"
+  | "rtcopy" :: r => (P.run rtcopy r).getD "bad-op"
   | _ => "bad-op"
 
 end DrvC17
